@@ -15,6 +15,7 @@ import (
 	"reflect"
 	"sort"
 	"strings"
+	"sync"
 
 	"github.com/nspcc-dev/neo-go/pkg/crypto/keys"
 	"github.com/nspcc-dev/neo-go/pkg/util"
@@ -35,51 +36,69 @@ var (
 	ctlAdminKey  = mustKey(0x61) // configured administrator key
 	ctlOtherKey  = mustKey(0x62) // a valid key that is NOT configured
 	ctlServerKey = mustKey(0x63)
+	ctlAdmin2Key = mustKey(0x64) // second configured administrator key
 )
 
-type ctlRec struct{ calls []string }
+// ctlRec records the calls that reach the dependencies of a control server (several requests may be in flight:
+// op `crace`, eng_rpc_ctlrace.go).
+type ctlRec struct {
+	mu    sync.Mutex
+	calls []string
+}
+
+func (r *ctlRec) add(s string) {
+	r.mu.Lock()
+	r.calls = append(r.calls, s)
+	r.mu.Unlock()
+}
+
+func (r *ctlRec) snapshot() []string {
+	r.mu.Lock()
+	defer r.mu.Unlock()
+	return append([]string(nil), r.calls...)
+}
 
 type ctlHealth struct{ r *ctlRec }
 
 func (h ctlHealth) NetmapStatus() control.NetmapStatus {
-	h.r.calls = append(h.r.calls, "health:NetmapStatus")
+	h.r.add("health:NetmapStatus")
 	return control.NetmapStatus_ONLINE
 }
 func (h ctlHealth) HealthStatus() control.HealthStatus {
-	h.r.calls = append(h.r.calls, "health:HealthStatus")
+	h.r.add("health:HealthStatus")
 	return control.HealthStatus_READY
 }
 
 type ctlNodeState struct{ r *ctlRec }
 
 func (n ctlNodeState) SetNetmapStatus(st control.NetmapStatus) error {
-	n.r.calls = append(n.r.calls, "nodeState:SetNetmapStatus")
+	n.r.add(fmt.Sprintf("nodeState:SetNetmapStatus(%d)", int32(st)))
 	return nil
 }
 func (n ctlNodeState) IsLocalNodePublicKey([]byte) bool {
-	n.r.calls = append(n.r.calls, "nodeState:IsLocalNodePublicKey")
+	n.r.add("nodeState:IsLocalNodePublicKey")
 	return false
 }
 
 type irHealth struct{ r *ctlRec }
 
 func (h irHealth) HealthStatus() irctl.HealthStatus {
-	h.r.calls = append(h.r.calls, "health:HealthStatus")
+	h.r.add("health:HealthStatus")
 	return irctl.HealthStatus_READY
 }
 
 type irNotary struct{ r *ctlRec }
 
 func (n irNotary) ListNotaryRequests() ([]util.Uint256, error) {
-	n.r.calls = append(n.r.calls, "notary:List")
+	n.r.add("notary:List")
 	return nil, nil
 }
-func (n irNotary) RequestNotary(string, ...[]byte) (util.Uint256, error) {
-	n.r.calls = append(n.r.calls, "notary:Request")
+func (n irNotary) RequestNotary(method string, args ...[]byte) (util.Uint256, error) {
+	n.r.add(fmt.Sprintf("notary:Request(%s,%x)", method, args))
 	return util.Uint256{}, nil
 }
-func (n irNotary) SignNotary(util.Uint256) error {
-	n.r.calls = append(n.r.calls, "notary:Sign")
+func (n irNotary) SignNotary(h util.Uint256) error {
+	n.r.add(fmt.Sprintf("notary:Sign(%x)", h.BytesBE()))
 	return nil
 }
 
@@ -92,11 +111,11 @@ func (s *ctlStream) SetTrailer(metadata.MD)       {}
 func (s *ctlStream) Context() context.Context     { return context.Background() }
 func (s *ctlStream) RecvMsg(any) error            { return nil }
 func (s *ctlStream) SendMsg(any) error {
-	s.r.calls = append(s.r.calls, "stream:SendMsg")
+	s.r.add("stream:SendMsg")
 	return nil
 }
 func (s *ctlStream) Send(*control.ListObjectsResponse) error {
-	s.r.calls = append(s.r.calls, "stream:Send")
+	s.r.add("stream:Send")
 	return nil
 }
 
@@ -120,7 +139,7 @@ func newCtlFixture(kind string) *ctlFixture {
 	case "ctl":
 		dir := scratchDir("ctl")
 		e, _ := newEngine(dir, 1, shardCfg{})
-		srv := ctlsrv.New(&ctlServerKey.PrivateKey, [][]byte{ctlAdminKey.PublicKey().Bytes()}, ctlHealth{rec}, zap.NewNop())
+		srv := ctlsrv.New(&ctlServerKey.PrivateKey, [][]byte{ctlAdminKey.PublicKey().Bytes(), ctlAdmin2Key.PublicKey().Bytes()}, ctlHealth{rec}, zap.NewNop())
 		srv.MarkReady(e, (*placement.Service)(nil), (*replicator.Replicator)(nil), ctlNodeState{rec})
 		return &ctlFixture{srv: srv, rec: rec, eng: e, dir: dir,
 			sign: func(k *keys.PrivateKey, m any) error {
@@ -136,7 +155,7 @@ func newCtlFixture(kind string) *ctlFixture {
 		prm.SetPrivateKey(*ctlServerKey)
 		prm.SetHealthChecker(irHealth{rec})
 		prm.SetNetworkManager(irNotary{rec})
-		srv := irsrv.New(prm, irsrv.WithAllowedKeys([][]byte{ctlAdminKey.PublicKey().Bytes()}))
+		srv := irsrv.New(prm, irsrv.WithAllowedKeys([][]byte{ctlAdminKey.PublicKey().Bytes(), ctlAdmin2Key.PublicKey().Bytes()}))
 		return &ctlFixture{srv: srv, rec: rec,
 			sign: func(k *keys.PrivateKey, m any) error {
 				return irsrv.SignMessage(&k.PrivateKey, m.(irsrv.SignedMessage))
@@ -326,7 +345,7 @@ func ctlExecLine(c *runCtx, line string, o opLine) {
 		code = grpcstatus.Code(callErr)
 	}
 	denied := panicked == "" && code == grpccodes.PermissionDenied
-	desc := fmt.Sprintf("service=%s method=%s request=%s code=%v err=%v panic=%q calls=%v shards=%s->%s", kind, h, sc, code, callErr, clip(panicked), f.rec.calls, before, after)
+	desc := fmt.Sprintf("service=%s method=%s request=%s code=%v err=%v panic=%q calls=%v shards=%s->%s", kind, h, sc, code, callErr, clip(panicked), f.rec.snapshot(), before, after)
 	c.count("svc:" + kind)
 	c.count("sc:" + sc)
 	if denied {
@@ -338,8 +357,8 @@ func ctlExecLine(c *runCtx, line string, o opLine) {
 		c.oracle("authorised-request-passes", !denied, desc)
 	} else {
 		c.oracle("unauthorised-request-is-denied", denied, desc)
-		c.oracle("unauthorised-request-has-no-side-effect", len(f.rec.calls) == 0 && before == after && panicked == "", desc)
-		if denied && len(f.rec.calls) == 0 {
+		c.oracle("unauthorised-request-has-no-side-effect", len(f.rec.snapshot()) == 0 && before == after && panicked == "", desc)
+		if denied && len(f.rec.snapshot()) == 0 {
 			c.nontrivial(line)
 		}
 	}
